@@ -79,7 +79,7 @@ def concretize(model, nondets, literals):
         if k == "atom" and n in model:
             codes.add(int(model[n]))
     for name, args, v in ufs:
-        if name in ("trim", "cat", "toupper", "tolower", "quote", "trimprefix", "trimsuffix", "replaceall", "strlen", "containsany", "contains", "hasprefix", "hassuffix"):
+        if name in ("trim", "cat", "toupper", "tolower", "quote", "trimprefix", "trimsuffix", "replaceall", "strlen", "containsany", "contains", "hasprefix", "hassuffix", "cleanpath", "isabs", "pathjoin"):
             for a in args:
                 try:
                     codes.add(int(a))
@@ -145,6 +145,24 @@ def concretize(model, nondets, literals):
             else:
                 core = strs[c].strip(" ")
                 strs[c] = strs[c].replace(core, core + piece + "z", 1) if core else strs[c] + piece + "z"
+    # path facts: isabs(x) => leading "/"; cleanpath(x) = y with y != x => x := "./" + y (an
+    # unclean spelling of the clean path y)
+    for name, args, v in ufs:
+        if name == "isabs" and v == "true":
+            try:
+                c = int(args[0])
+            except ValueError:
+                continue
+            if c in strs and c not in code2lit and c not in forced and not strs[c].startswith("/"):
+                strs[c] = "/" + strs[c]
+    for name, args, v in ufs:
+        if name == "cleanpath":
+            try:
+                a, b = int(args[0]), int(v)
+            except ValueError:
+                continue
+            if a != b and a in strs and b in strs and a not in code2lit and a not in forced:
+                strs[a] = "./" + strs[b]
     for name, args, v in ufs:
         if name == "strlen":
             try:
